@@ -14,6 +14,14 @@ pub fn fixed_random_state() -> std::hash::RandomState {
     unsafe { core::mem::transmute::<[u64; 2], std::hash::RandomState>([0x0706050403020100, 0x0f0e0d0c0b0a0908]) }
 }
 
+/// `AccountInfo::default()` holds `Some(Bytecode::new())` = an analysed one-byte legacy bytecode (`Bytes::from_static`,
+/// `Arc<BitVec>`): building and dropping it costs CBMC > 7 min / 3 GB.  The harnesses that reach it
+/// (touch_create_pre_eip161, `unwrap_or_default()` in update_and_create_revert) replace `Bytecode::new` by the raw empty
+/// bytecode; no property read depends on the `code` field (AccountInfo equality ignores it).
+pub fn bytecode_new_stub() -> crate::primitives::Bytecode {
+    crate::primitives::Bytecode::LegacyRaw(crate::primitives::Bytes::new())
+}
+
 /// the two CONCRETE storage keys (symbolic keys make the hashing explode)
 pub const K1: U256 = U256::from_limbs([1, 0, 0, 0]);
 pub const K2: U256 = U256::from_limbs([2, 0, 0, 0]);
@@ -241,6 +249,8 @@ pub fn produces(s: AccountStatus, e: Ev) -> bool {
 pub fn legal_c(s: AccountStatus, e: Ev) -> bool {
     legal(s, e) && produces(s, e) && !(st_eq(s, Changed) && matches!(e, Ev::Created))
 }
-pub fn info_for(s: AccountStatus) -> Option<AccountInfo> {
-    if exists(s) { Some(any_info()) } else { None }
+/// `ex` is CONCRETE in every harness instance (a symbolic Some / None of an `Option<AccountInfo>` sends CBMC into the
+/// clone / drop glue of every `Bytecode` variant)
+pub fn info_if(ex: bool) -> Option<AccountInfo> {
+    if ex { Some(any_info()) } else { None }
 }
